@@ -21,7 +21,10 @@ CLAIMED = {
          "the Service methods, upload flags havocked at awaits), that refusals are effect-free, that no predicate result is "
          "dropped and the configuration validity check guards service creation, that the key file has a single guarded "
          "writer and no deleter, that getters/setters agree on one bit per flag, that each flag store is followed by "
-         "persistence and that an alias cannot be overwritten. A structural all-paths argument about the guard structure.",
+         "persistence and that an alias cannot be overwritten; that the re-synchronisation with the server's state, evaluated for the "
+         "3 server states x all flag vectors with helper methods evaluated in place and undecidable conditions taken both ways, "
+         "changes exactly the two upload flags; that the sid is derived after salting (by role, not by name). "
+         "A structural all-paths argument about the guard structure.",
          "Trusted: CPython's ast parser, the row table (prerequisites per operation, frozen from frontend/README.md and the "
          "property) in sa/props/c11.py, the CFG engine. Assumes each operation runs on a Service freshly loaded from disk "
          "and that only the echo handlers run concurrently with an awaiting operation. Behaviour against a live server and "
@@ -31,7 +34,8 @@ CLAIMED = {
          "the registry check-then-act, the durable-state snapshot taken by the Service constructor, and the registry entry "
          "used by the clean-up can be separated from their use by an await; that every registry mutation is under the lock; "
          "and that the serialisation mechanism is present and dominates request processing (CONTROL notice, await of the "
-         "previous connection's closure, registration before an awaited start, receive loop reachable only through start, "
+         "previous connection's closure - Service.wait_closed returns normally only through the direct await of the socket's "
+         "wait_closed(), on every path including handlers -, registration before an awaited start, receive loop reachable only through start, "
          "one shared manager). Three genuine races of the unchanged tree are listed as known findings; any other construct "
          "violating the same rules is reported.",
          "Trusted: CPython's ast parser, sa/props/c12.py, the CFG engine, and asyncio's run-to-await semantics. Liveness and "
@@ -51,7 +55,8 @@ CLAIMED = {
          "_parse_config, _Gen/_Enc/_Trap/_Search, their public wrappers and the toolkit/structures helpers they call mutates "
          "an object reachable from a parameter (database, key, config dict, index, token), from self outside __init__, or "
          "from a module global (DEFAULT_CONFIG). Shallow copies keep elements aliased; deepcopy and immutable results cut "
-         "the alias; callee mutation summaries are propagated to call sites. Since no state survives a call, search order "
+         "the alias; callee mutation summaries are propagated to call sites; no method that stores into the configuration object is "
+         "called after that object was built. Since no state survives a call, search order "
          "cannot matter. All 9 schemes, all paths; nothing is executed.",
          "Trusted: CPython's ast parser, the alias rules in sa/props/c07.py (which constructors copy shallowly/deeply, which "
          "methods mutate), the use-def engine sa/terms.py. Assumes deepcopy and bytes/int/tuple values do not alias; C-level "
@@ -104,7 +109,7 @@ CLAIMED = {
          "(_Gen/_Trap) modulo the equalities that the primitives' run-time guards enforce; the checked total equals the sum; "
          "headers are written, skipped and verified symmetrically; __eq__ compares every slot. Also decides that _Search reads "
          "only index, token and self.config, that a config object is a function of its dict (no module-level tables, no "
-         "environment), and that each loader names existing classes and the advertised scheme path.",
+         "environment, no slot re-derived after construction by a method called from the algorithms), and that each loader names existing classes and the advertised scheme path.",
          "Trusted: CPython's ast parser, sa/terms.py, sa/symlen.py, sa/contracts.py, sa/props/c03.py. Assumes pickle "
          "round-trips built-in containers of bytes. Equality of concrete deserialized objects is not computed."),
  "C08": ("set comparison of consumed vs demanded configuration keys, refusal contracts decided on must-facts (reach / refuse), symbolic length contracts, registries by path summaries",
@@ -123,7 +128,8 @@ CLAIMED = {
          "_Trap o _Search that every counter-example found so far violates, for all nine schemes: each label looked up by "
          "_Search (token fields replaced by what _Trap puts into them) has the same derivation spine - primitive, key root, "
          "domain-separation constant, counter start/step, encoding width, slice/piece position - as a label _Enc stores in "
-         "that container; decrypt keys and XOR masks coincide; SSE-1's stored next-pointer is the next counter's address; "
+         "that container; the scheme algorithms and the PRPs behind them keep no state on their objects (a token is derived from this call's key); "
+         "decrypt keys and XOR masks coincide; SSE-1's stored next-pointer is the next counter's address; "
          "partition/parse geometry agrees per container; Pi2Lev's threshold chain is contiguous and matches the slot "
          "reservation; level tables cover t+1 levels, the encoded list size holds 2^t, DP17's divisor is positive; loops over "
          "index data examine every element; ANSS16's size guard accepts every storable size (finite boundary evaluation).",
@@ -196,7 +202,8 @@ CLAIMED = {
          "index, config object, module loader) in both Service classes is dominated by the loader that assigns it - which is "
          "what makes a re-created client or restarted server equivalent to the original object - and each loader reads the "
          "artifact its writer wrote and deserialises with the class family that serialised it; both sides build the scheme from "
-         "the uploaded config dict; keyword/identifier encodings agree.",
+         "the uploaded config dict; keyword/identifier encodings agree; the service id (a digest of a pickle, not canonical) is derived "
+         "once, in the client's create-service, and nowhere re-derived from a configuration that travelled (who-may-call).",
          "Trusted: CPython's ast parser, sa/effects.py, sa/cfg.py, sa/props/c09.py. The websocket library, timing and "
          "concrete payload values are outside the analysis."),
 }
